@@ -253,6 +253,33 @@ mod verif_c20 {
         kani::cover!(p.y == 5 && wl == 6 && wc == p.x as u32);
     }
 
+    /// Quick companion of c20_debug_output_rows with *concrete* cell positions (the symbolic-position form
+    /// does not finish in 30 min): content that does not start in row 0, content in the last row, symbolic
+    /// colour and symbolic observed output position.
+    fn debug_rows_at(p: Point) {
+        use core::fmt::Write;
+        let mut d = MockDisplay::<BinaryColor>::new();
+        let color: BinaryColor = kani::any();
+        d.set_pixel(p, Some(color));
+        let (wl, wc): (u32, u32) = (kani::any(), kani::any());
+        kani::assume(wl >= 1 && wl <= p.y as u32 + 1 && wc < 64);
+        let mut sink = Sink { line: 0, col: 0, want_line: wl, want_col: wc, got: None, last_row_line: p.y as u32 + 1, rows_ok: true };
+        let r = write!(sink, "{:?}", d);
+        assert!(r.is_ok());
+        assert!(sink.rows_ok);
+        let expected_lines = 1 + (p.y as u32 + 1) + if p.y < 63 { 1 } else { 0 } + 1;
+        assert!(sink.line == expected_lines);
+        let expected = if wl == p.y as u32 + 1 && wc == p.x as u32 { BinaryColor::color_to_char(color) } else { ' ' };
+        assert!(sink.got == Some(expected));
+        kani::cover!(wl == p.y as u32 + 1 && wc == p.x as u32);
+    }
+    //@harness prop=C20 kind=bounded tier=quick class=P bound="one touched cell at the concrete position (2,5); symbolic colour and observed character" timeout=900 kani="--no-assertion-reach-checks" fns=src/mock_display/mod.rs::MockDisplay::fmt
+    #[kani::proof]
+    #[kani::unwind(66)]
+    fn c20_debug_output_rows_at_2_5() {
+        debug_rows_at(Point::new(2, 5));
+    }
+
     //@harness prop=C20 kind=canary tier=quick class=I expect=fail
     #[kani::proof]
     fn c20_canary() {
